@@ -40,6 +40,14 @@ func (v *Votes) Validate() error {
 }
 
 func (v *Voter) Validate() error {
+	if v.Status == VOTER_STATUS_PENDING {
+		// a pending voter is registered with the hash of its vote key, the key itself comes with MsgNewVoter
+		if len(v.VoteKey) != sha256.Size {
+			return errors.New("invalid bls pubkey hash length")
+		}
+		return nil
+	}
+
 	if len(v.VoteKey) != goatcrypto.PubkeyLength {
 		return errors.New("invalid bls pubkey length")
 	}
